@@ -122,7 +122,7 @@ func init() {
 		Doc: "each boundary comparison of the specification that zrnt implements (listed in the checker with the spec's formulation) is present in its function with the spec's operator and the spec's integer offset, after normalising both sides to `lhs - rhs` over the operand leaves (so `a+1 < b`, `a < b-1` and `b-1 > a` are the same comparison, while `<` vs `<=` or a dropped `+1` is not)",
 		Run: ruleCmpSpec})
 	if len(os.Args) > 1 && os.Args[1] == "cmps" {
-		p, err := load(loadOpts{repo: "/repo"})
+		p, err := load(loadOpts{repo: dumpRepo()})
 		if err != nil {
 			fmt.Println(err)
 			os.Exit(2)
@@ -414,7 +414,9 @@ func cmpNearMiss(fn string, atoms []string, res []*regexp.Regexp, sites []cmpSit
 			}
 		}
 		still := false
-		if !isPath {
+		if strings.HasPrefix(lit, "const") && strings.Trim(lit[5:], "0123456789") == "" {
+			still = true // a numeric constant cannot have been "renamed away": the operand was replaced
+		} else if !isPath {
 			ast.Inspect(d.fd, func(n ast.Node) bool {
 				if id, ok := n.(*ast.Ident); ok && strings.EqualFold(id.Name, leaf) && d.pk.TypesInfo.Defs[id] != nil {
 					still = true
